@@ -1,5 +1,6 @@
 import Spine.UseCaseConc
 import Spine.UseCaseLock
+import Spine.UseCaseFrame
 /-!
 # C20 — the use-case registry reflects exactly what the application declared
 
@@ -32,6 +33,10 @@ registry through the modelled read path, and the concurrent clause as ONE theore
 cycles (`c20_concurrent_locked`). For the pinned commit's unlocked member the concurrent clause is REFUTED by a
 kernel-checked witness (`c20_concurrent_refuted`; finding `usecase-lost-update`, recorded as fixed) and PROVED for
 non-overlapping schedules (`c20_concurrent_partial`).
+Deepening round (audit table: `design/audit-C20.md`): isolation as a frame theorem over whole histories and over every
+schedule of the locked cycles (`c20_frame_history`, `c20_frame_concurrent`), no store of a lock holder is lost
+(`c20_no_store_lost`), the wire encoding is injective and self-delimiting (`c20_wire_injective`); regenerated wiring
+of the four operations in `Spine.Props.C20Gen` (`c20_operations_apply_their_helper`, `c20_has_is_read_only`).
 -/
 namespace Spine.Props.C20
 open Spine Spine.UC
@@ -180,5 +185,74 @@ theorem c20_lost_update_witness :
     lookup (crun [.copy 1, .copy 2, .store 1 (.add [1] 1 ⟨1, 0, true, [], 0⟩),
                   .store 2 (.add [2] 1 ⟨1, 0, true, [], 0⟩)]).reg [1] 1 1 = none :=
   UC.lost_update_witness
+
+/-! ## Added in the deepening round: frame over histories and schedules, no lost store, the wire -/
+
+/-- Clause 2 as a FRAME THEOREM over whole histories (before: one step, `c20_isolation`): after ANY history of add /
+    remove / set-availability / remove-all operations on any entities, what the registry answers about entity e' —
+    for every actor and name — is exactly what it answers after the sub-history of the operations issued ON e'
+    (`onEnt`), i.e. as if the operations on all other entities had never happened, wherever they stand in the
+    history; remove-all of another entity included. -/
+theorem c20_frame_history (ops : List Op) (hok : ∀ op ∈ ops, op.ok) (e' : List Nat) :
+    lookup (ops.foldl apply []) e' = lookup ((onEnt e' ops).foldl apply []) e' ∧
+    (ops.foldl specStep (fun _ _ _ => none)) e' = ((onEnt e' ops).foldl specStep (fun _ _ _ => none)) e' :=
+  ⟨frame_history ops hok e', spec_frame e' ops _ _ rfl⟩
+
+/-- non-vacuity: in the example history entity [1] keeps exactly what its own five operations give it, although
+    operations on [2] (an add and a remove-all) are interleaved -/
+example : onEnt [1] exOps = [.add [1] 1 ⟨1, 0, true, [1], 0⟩, .add [1] 1 ⟨1, 2, false, [2, 3], 1⟩,
+      .add [1] 2 ⟨3, 0, true, [], 0⟩, .setAvail [1] 1 1 true, .remove [1] 2 3, .remove [1] 1 9] ∧
+    lookup ((onEnt [1] exOps).foldl apply []) [1] 1 1 = some ⟨1, 2, true, [2, 3], 1⟩ ∧
+    (onEnt [2] exOps).length = 2 := by decide
+
+/-- The frame under CONCURRENCY (current tree's member): for EVERY schedule of the locked cycles of any number of
+    goroutines, what the registry — and hence what a peer reads and what HasUseCaseSupport says — answers about
+    entity e' is determined by the operations on e' among those that took effect, in lock order: cycles on other
+    entities, however interleaved, never show. -/
+theorem c20_frame_concurrent (evs : List LEv) (hok : ∀ k o, LEv.store k o ∈ evs → o.ok) (e' : List Nat) :
+    lookup (lrun evs).reg e' = lookup ((onEnt e' (lrun evs).seq).foldl apply []) e' ∧
+    (peerReads (lrun evs).reg).map (fun r => lookup r e') =
+      some (((onEnt e' (lrun evs).seq).foldl specStep (fun _ _ _ => none)) e') := by
+  have hseq : ∀ o ∈ (lrun evs).seq, o.ok := fun o ho => by
+    obtain ⟨k, hk⟩ := seq_sub evs o ho
+    exact hok k o hk
+  have hreg := (locked_is_sequential evs).1
+  refine ⟨by rw [hreg]; exact frame_history _ hseq e', ?_⟩
+  rw [peerReads_eq, Option.map_some, hreg, (UC.c20_refines _ hseq).2]
+  exact congrArg some (spec_frame e' _ _ _ rfl)
+
+example : onEnt [1] (lrun [.acquire 1, .copy 1, .acquire 2, .store 1 (.add [1] 1 ⟨1, 0, true, [], 0⟩), .release 1,
+      .acquire 2, .copy 2, .store 2 (.removeAll [2]), .release 2]).seq = [.add [1] 1 ⟨1, 0, true, [], 0⟩] := by decide
+
+/-- NO STORE IS LOST (current tree's member; the converse direction of `c20_concurrent_locked`, which says that
+    everything in the sequentialisation was stored): in every state any schedule can reach, a store by the operation
+    that holds the lock and has copied has exactly the operation's effect on the CURRENT registry — never on a stale
+    copy — and enters the sequentialisation; and a copy by the lock holder puts it into that position. -/
+theorem c20_no_store_lost (evs : List LEv) (k : Nat) (o : Op) (hh : (lrun evs).holder = some k) :
+    let s := lstep (lrun evs) (.copy k)
+    (lstep s (.store k o)).reg = apply (lrun evs).reg o ∧
+    (lstep s (.store k o)).seq = (lrun evs).seq ++ [o] := by
+  intro s
+  have hi : LInv s := linv_step _ (linv_run evs) _
+  obtain ⟨h1, h2⟩ := copy_ready (lrun evs) k hh
+  obtain ⟨e1, e2⟩ := store_effect s hi k o h1 h2
+  have hr : s.reg = (lrun evs).reg := by simp [s, lstep, hh]
+  have hd : s.doneBy = (lrun evs).doneBy := by simp [s, lstep, hh]
+  refine ⟨by rw [e1, hr], ?_⟩
+  simp only [LSt.seq, e2, hd, List.map_append, List.map_cons, List.map_nil]
+
+example : (lrun [.acquire 1, .copy 1, .store 1 (.add [1] 1 ⟨1, 0, true, [], 0⟩), .release 1, .acquire 2]).holder = some 2 := by
+  decide
+
+/-- The wire of the read path (a length-prefixed token list standing for the JSON reply): the encoding of the stored
+    data is INJECTIVE — two registries with the same payload are the same registry, so nothing the registry holds is
+    lost or merged on the wire — and SELF-DELIMITING: a payload followed by anything else is not a payload. (The
+    real JSON text is compared with the stored data by the harness on every read; `encoding/json` is A-json.) -/
+theorem c20_wire_injective (r r' : Reg) :
+    (encode r = encode r' → r = r') ∧ (∀ w, decode (encode r ++ w) = if w = [] then some r else none) :=
+  ⟨encode_injective r r', decode_encode_append r⟩
+
+example : encode [⟨[1], 1, [⟨1, 2, true, [2, 3], 1⟩]⟩] ≠ encode [⟨[1], 1, [⟨1, 2, true, [2], 1⟩]⟩] ∧
+    decode (encode (exOps.foldl apply []) ++ [0]) = none := by decide
 
 end Spine.Props.C20
